@@ -22,6 +22,7 @@ func init() {
 			ruleKeyOrderPredicates(c, "C04.R5")
 			c04R6(c, "C04.R6")
 			c04R7(c, "C04.R7")
+			ruleRollbackUndoesFrees(c, "C04.R8") // a rolled-back DeleteBucket must not leave the bucket's pages released
 		},
 	})
 }
